@@ -133,12 +133,27 @@ def step_cargo(profile, log, nopf=False):
             f.write(lock)
     except OSError:
         pass
-    cmd = ["cargo", "build", "--offline", "--target-dir", os.path.join(HARN, "target", "nopf" if nopf else "pf")] + PROFILES[profile]
-    if nopf:
-        cmd += ["--no-default-features"]
-    rc, out = sh(cmd, cwd=HARN, timeout=3000)
-    log.append(out[-4000:])
-    return rc == 0, out
+    base = ["cargo", "build", "--offline", "--target-dir", os.path.join(HARN, "target", "nopf" if nopf else "pf")] + PROFILES[profile]
+    pf = [] if nopf else ["prefetch"]
+    # full build first; when it fails, fall back to builds without the direct `qwt::utils` calls and/or without
+    # the compile-time Send + Sync assertions, so that the search for a failing input can still run.
+    # BUILD_FALLBACK[(profile, nopf)] records which feature had to be dropped (None = full build).
+    variants = [(None, pf + ["utilsq", "syncassert"]), ("utilsq", pf + ["syncassert"]), ("syncassert", pf + ["utilsq"]), ("utilsq+syncassert", pf)]
+    first_out = None
+    for dropped, feats in variants:
+        cmd = base + ["--no-default-features", "--features", ",".join(feats)] if feats else base + ["--no-default-features"]
+        rc, out = sh(cmd, cwd=HARN, timeout=3000)
+        log.append(out[-4000:])
+        if first_out is None:
+            first_out = out
+        if rc == 0:
+            BUILD_FALLBACK[(profile, nopf)] = dropped
+            return dropped is None, first_out
+    BUILD_FALLBACK[(profile, nopf)] = "none-builds"
+    return False, first_out
+
+
+BUILD_FALLBACK = {}
 
 
 # ------------------------------------------------------------------------------- running
@@ -301,6 +316,8 @@ def compare(script_lines, impl, model):
         im = impl[i] if i < len(impl) else "MISSING"
         mo = model[i] if i < len(model) else "MISSING"
         kind = req.split(" ", 1)[0]
+        if im == "no-utilsq" or im.startswith("skipped:"):
+            continue  # fallback build (see step_cargo): the request could not be executed; reported as a broken tie
         if kind in ("q", "op", "u", "eq"):
             if "|" in mo:
                 m, s = mo.rsplit("|", 1)
